@@ -438,6 +438,16 @@ func (m *Muxer) readLoop() {
 		if recvChan.ch == nil {
 			recvChan.mu.Unlock()
 			m.verifEv("Drop", msg.GetProtocolId(), msg.IsResponse(), len(msg.Payload), protocolRole, "receiver closed", nil)
+			// The protocol was unregistered after the receiver lookup above.
+			// Treat the segment like any other segment for an unregistered
+			// protocol instead of silently ending the read loop, which would
+			// leave the connection open but dead.
+			m.sendError(
+				fmt.Errorf(
+					"received message for unknown protocol ID %d",
+					msg.GetProtocolId(),
+				),
+			)
 			return
 		}
 
